@@ -46,7 +46,7 @@ pub fn run(tier: Tier) -> i32 {
 
     // ---------------------------------------------------------------- E4 with every limit
     {
-        let nmax = tier.pick(4usize, 5usize);
+        let nmax = tier.pick(4usize, 6usize);
         let name = format!("E4/circular/dict=1..{}/limit=0..dict+1", nmax);
         if ctx.may_start(&name) {
             let t0 = Instant::now();
